@@ -500,18 +500,49 @@ char const* const rcode_names[] = {"optional()", "optional(nullopt)", "optional(
     "self copy-assign", "=int& (rebind)", "emplace(int&)", "reset", "x.swap(y)", "swap(x,y)", "x.swap(x)", "*x = v", "referent = v", "operator*/->", "x rel y", "x rel optional<int/long>",
     "x rel nullopt", "x rel value", "observe"};
 
-struct Ref {
-    using O = etl::optional<int&>;
-    using M = std::optional<std::reference_wrapper<int>>;
-    static constexpr int NPOOL = 3;
+// Referents of class type: optional<Base&> bound to Derived objects (and to their Base subobject).  Assignment, emplace,
+// swap and reset must rebind / unbind and never touch a referent: observed through the address (&*o), through shadow
+// copies of every referent's value and through later write-throughs.
+struct Base {
+    int b{0};
+    friend auto operator==(Base const& l, Base const& r) noexcept -> bool { return l.b == r.b; }
+    friend auto operator!=(Base const& l, Base const& r) noexcept -> bool { return l.b != r.b; }
+    friend auto operator<(Base const& l, Base const& r) noexcept -> bool { return l.b < r.b; }
+    friend auto operator<=(Base const& l, Base const& r) noexcept -> bool { return l.b <= r.b; }
+    friend auto operator>(Base const& l, Base const& r) noexcept -> bool { return l.b > r.b; }
+    friend auto operator>=(Base const& l, Base const& r) noexcept -> bool { return l.b >= r.b; }
+};
+struct Derived : Base {
+    int tag{0}; // never written after construction
+};
+inline auto rv(int x) -> int { return x; }
+inline auto rv(Base const& x) -> int { return x.b; }
 
-    static auto deref(M const& m) -> std::optional<int> { return m.has_value() ? std::optional<int>(m->get()) : std::nullopt; }
+template <typename T, typename R>
+struct RefT {
+    using O = etl::optional<T&>;
+    using M = std::optional<std::reference_wrapper<T>>;
+    static constexpr int NPOOL       = 3;
+    static constexpr bool is_int     = std::is_same_v<T, int>;
+    static constexpr char const* tn  = is_int ? "optional<int&>" : "optional<Base&>";
+    static auto mk(int v) -> T
+    {
+        if constexpr (is_int) {
+            return v;
+        } else {
+            T t;
+            t.b = v;
+            return t;
+        }
+    }
+
+    static auto deref(M const& m) -> std::optional<int> { return m.has_value() ? std::optional<int>(rv(m->get())) : std::nullopt; }
     static auto compare(char const* name, O const& x, M const& m) -> std::string
     {
         if (x.has_value() != m.has_value()) { return std::string(name) + ": has_value() is " + b2s(x.has_value()) + ", std::optional says " + b2s(m.has_value()); }
         if (static_cast<bool>(x) != m.has_value()) { return std::string(name) + ": operator bool differs from has_value()"; }
         if (m.has_value()) {
-            if (&*x != &m->get()) { return std::string(name) + ": refers to a different object than std::optional<reference_wrapper<int>>"; }
+            if (&*x != &m->get()) { return std::string(name) + ": refers to a different object than std::optional<reference_wrapper<T>> (assignment / emplace must rebind)"; }
             if (x.operator->() != &m->get()) { return std::string(name) + ": operator-> differs from &*x"; }
         }
         return "";
@@ -530,7 +561,22 @@ struct Ref {
         sw.a.make();
         sw.b.make();
         M ma, mb;
-        int pool[NPOOL] = {0, 1, 1}; // referents; two of them hold equal values
+        R pool[NPOOL]{}; // referents; two of them hold equal values
+        int shadow[NPOOL] = {0, 1, 1}; // what every referent must hold: only the write ops below change a referent
+        for (int i = 0; i < NPOOL; ++i) {
+            if constexpr (is_int) {
+                pool[i] = shadow[i];
+            } else {
+                pool[i].b   = shadow[i];
+                pool[i].tag = 100 + i;
+            }
+        }
+        auto pool_index = [&](T const* p) -> int {
+            for (int i = 0; i < NPOOL; ++i) {
+                if (static_cast<T const*>(&pool[i]) == p) { return i; }
+            }
+            return -1;
+        };
         for (auto const& op : k.ops) {
             bool tb = (op.c & 1U) != 0;
             Slot<O>& sx = tb ? sw.b : sw.a;
@@ -538,7 +584,10 @@ struct Ref {
             M& mx     = tb ? mb : ma;
             M& my     = tb ? ma : mb;
             int v     = static_cast<int>((op.c >> 1) % NVAL);
-            int& tgt  = pool[op.a % NPOOL];
+            // the referent as the argument sees it: the R object itself (U = Derived&) or its T subobject (U = T&)
+            R& tgt_r  = pool[op.a % NPOOL];
+            T& tgt    = tgt_r;
+            bool as_r = !is_int && (op.b & 2U) != 0;
             auto code = op.code % R_NCODES;
             bool xe0 = mx.has_value(), ye0 = my.has_value();
             if (code == R_WRITE_THROUGH && !mx.has_value()) { code = R_EMPLACE; }
@@ -550,7 +599,7 @@ struct Ref {
             switch (code) {
             case R_C_DEFAULT: sx.make(), mx.reset(); break;
             case R_C_NULLOPT: sx.make(etl::nullopt), mx.reset(); break;
-            case R_C_LVALUE: sx.make(tgt), mx = std::ref(tgt); break;
+            case R_C_LVALUE: (as_r ? sx.make(tgt_r) : sx.make(tgt)), mx = std::ref(tgt); break;
             case R_C_COPY: ((op.b & 1U) != 0 ? sx.make(y) : sx.make(std::as_const(y))), mx = my; break; // b odd: non-const lvalue must not be captured by optional(U&&)
             case R_C_MOVE: sx.make(std::move(y)), mx = my; break; // optional<T&> is trivially copyable: the source is unchanged
             case R_A_NULLOPT: x = etl::nullopt, mx.reset(); break;
@@ -562,9 +611,9 @@ struct Ref {
                 x              = alias;
                 break;
             }
-            case R_A_LVALUE: x = tgt, mx = std::ref(tgt); break;
+            case R_A_LVALUE: (as_r ? (x = tgt_r) : (x = tgt)), mx = std::ref(tgt); break; // rebinds, also when engaged
             case R_EMPLACE: {
-                O& r = x.emplace(tgt);
+                O& r = as_r ? x.emplace(tgt_r) : x.emplace(tgt);
                 mx   = std::ref(tgt);
                 if (&r != &x) { err = "emplace did not return *this"; }
                 break;
@@ -583,39 +632,47 @@ struct Ref {
             }
             case R_SWAP_SELF: x.swap(x); break;
             case R_WRITE_THROUGH: {
-                int* before = &mx->get();
+                T* before = &mx->get();
                 if ((op.b & 1U) != 0) {
-                    *x.operator->() = v;
+                    *x.operator->() = mk(v);
                 } else {
-                    *x = v;
+                    *x = mk(v);
                 }
-                if (*before != v) { err = "assignment through operator* did not reach the referent"; }
+                if (pool_index(before) >= 0) { shadow[pool_index(before)] = v; }
+                if (rv(*before) != v) { err = "assignment through operator* did not reach the referent"; }
                 if (my.has_value() && &my->get() == before) { aliasing = true; }
                 break;
             }
             case R_WRITE_REFERENT: {
-                tgt = v; // the optionals bound to it must observe the new value (compare() below reads through them)
+                tgt = mk(v); // the optionals bound to it must observe the new value (compare() below reads through them)
+                shadow[op.a % NPOOL] = v;
                 if ((mx.has_value() && &mx->get() == &tgt) || (my.has_value() && &my->get() == &tgt)) { aliasing = true; }
-                if (mx.has_value() && &mx->get() == &tgt && *x != v) { err = "*x does not show a write to the bound object"; }
+                if (mx.has_value() && &mx->get() == &tgt && rv(*x) != v) { err = "*x does not show a write to the bound object"; }
                 break;
             }
             case R_Q_DEREF: {
-                int& r = *x;
-                if (&r != &mx->get() || r != mx->get()) { err = "*x does not refer to the bound object"; }
+                T& r = *x;
+                if (&r != &mx->get() || rv(r) != rv(mx->get())) { err = "*x does not refer to the bound object"; }
                 break;
             }
             case R_Q_REL_SAME: {
                 if (mx.has_value() && my.has_value()) { cmp_both = true; }
                 if (mx.has_value() != my.has_value()) { cmp_one = true; }
-                err = rel_diff("optional<int&> x optional<int&>", rel12(std::as_const(x), std::as_const(y)), rel12(deref(mx), deref(my)));
-                if (err.empty()) { err = rel_diff("optional<int&> x itself", rel12(std::as_const(x), std::as_const(x)), rel12(deref(mx), deref(mx))); }
+                err = rel_diff("optional<T&> x optional<T&>", rel12(std::as_const(x), std::as_const(y)), rel12(deref(mx), deref(my)));
+                if (err.empty()) { err = rel_diff("optional<T&> x itself", rel12(std::as_const(x), std::as_const(x)), rel12(deref(mx), deref(mx))); }
                 break;
             }
             case R_Q_REL_MIXED: {
                 auto zs = op.b % (NVAL + 1);
                 if (mx.has_value() && zs != 0) { cmp_both = true; }
                 if (mx.has_value() != (zs != 0)) { cmp_one = true; }
-                if ((op.a & 1U) != 0) {
+                if constexpr (!is_int) {
+                    // class referent: the partner is an optional<Base> holding a value
+                    etl::optional<T> z;
+                    std::optional<int> mz;
+                    if (zs != 0) { z = mk(static_cast<int>(zs - 1)), mz = static_cast<int>(zs - 1); }
+                    err = rel_diff("optional<Base&> x optional<Base>", rel12(std::as_const(x), std::as_const(z)), rel12(deref(mx), mz));
+                } else if ((op.a & 1U) != 0) {
                     etl::optional<long> z;
                     std::optional<long> mz;
                     if (zs != 0) { z = static_cast<long>(zs - 1), mz = static_cast<long>(zs - 1); }
@@ -641,7 +698,8 @@ struct Ref {
             }
             case R_Q_REL_VALUE: {
                 int w = static_cast<int>(op.b % NVAL);
-                err   = rel_diff("optional<int&> x int", rel12(std::as_const(x), w), rel12(deref(mx), w));
+                T tw  = mk(w);
+                err   = rel_diff("optional<T&> x T", rel12(std::as_const(x), std::as_const(tw)), rel12(deref(mx), w));
                 if (mx.has_value()) { cmp_both = true; } else { cmp_one = true; }
                 break;
             }
@@ -653,6 +711,13 @@ struct Ref {
             if (err.empty()) { err = compare(tb ? "B" : "A", *sx.p, mx); }
             if (err.empty()) { err = compare(tb ? "A" : "B", *sy.p, my); }
             if (err.empty() && (sw.pre != 0xA5A5A5A5A5A5A5A5ULL || sw.mid != 0x5A5A5A5A5A5A5A5AULL || sw.post != 0xC3C3C3C3C3C3C3C3ULL)) { err = "canary next to the optional was overwritten"; }
+            for (int i = 0; i < NPOOL && err.empty(); ++i) {
+                bool tag_ok = true;
+                if constexpr (!is_int) { tag_ok = pool[i].tag == 100 + i; }
+                if (rv(static_cast<T const&>(pool[i])) != shadow[i] || !tag_ok) {
+                    err = "referent " + std::to_string(i) + " holds " + std::to_string(rv(static_cast<T const&>(pool[i]))) + " but nothing wrote " + "to it (expected " + std::to_string(shadow[i]) + "): optional<T&> must rebind, never assign through";
+                }
+            }
             if (!err.empty()) {
                 err = std::string("after ") + rcode_names[code] + ": " + err;
                 break;
@@ -1138,7 +1203,7 @@ struct Config {
     #define C07_RUN1 nullptr
 #endif
 #if !defined(C07_ONLY) || C07_ONLY == 2
-    #define C07_RUN2 &Ref::run
+    #define C07_RUN2 &RefT<int, int>::run
 #else
     #define C07_RUN2 nullptr
 #endif
@@ -1149,6 +1214,7 @@ Config const configs[] = {
     {"optional<double/float> relational incl. NaN", &FloatRel::run, F_NCODES, 0, fcode_names, false, true, FloatRel::NDOM, FloatRel::NDOM},
     {"optional<optional<int>>", &Nest::run, N_NCODES, N_FIRST_QUERY, ncode_names, false, false, 0, 0, true},
     {"optional<bool> / optional<int const> / explicit value types", &Misc::run, M_NCODES, 0, mcode_names, false, true, 9, 3},
+    {"optional<Base&> bound to Derived", &RefT<Base, Derived>::run, R_NCODES, R_FIRST_QUERY, rcode_names, true},
 };
 constexpr std::uint32_t nconfigs = sizeof(configs) / sizeof(configs[0]);
 
@@ -1246,7 +1312,7 @@ auto shapes(Config const& cfg, std::uint32_t code) -> std::vector<RawOp>
         case R_C_LVALUE:
         case R_A_LVALUE:
         case R_EMPLACE:
-            for (std::uint32_t a = 0; a < 3; ++a) { add(a, 0, 0); }
+            for (std::uint32_t a = 0; a < 3; ++a) { add(a, 0, 0), add(a, 2, 0); } // b & 2: the argument is the Derived object / its Base subobject
             break;
         case R_WRITE_THROUGH:
             for (std::uint32_t b = 0; b < 2; ++b) {
